@@ -163,7 +163,7 @@ def _chain_rules(c, R, rid, gsm, spec):
     roles = ["synthetic", "access"]      # items of IndexMap<MethodRefObj, MethodAccess>::iter()
     filters = []                          # formulas
     potential_info = {}
-    one = {"lookup": None, "len": [], "else_none": None, "set": None}
+    one = {"lookup": None, "len": []}
 
     def atom_factory(env):
         def atom(n):
@@ -201,6 +201,15 @@ def _chain_rules(c, R, rid, gsm, spec):
             break
         if nm == "filter":
             filters.append(B.formula(_value_of(cl["body"]), atom_factory(env)))
+        elif nm == "filter_map" and _then_some(cl) is not None:
+            # `filter_map(|item| <bool>.then_some(<tuple>))` == `filter(|item| <bool>).map(|item| <tuple>)`
+            cond, tup = _then_some(cl)
+            filters.append(B.formula(cond, atom_factory(env)))
+            if tup.get("k") != "tuple" or any(_role(e, env) is None for e in tup["es"]):
+                R.unrecognised(rid, "chain:filter_map", "then_some does not produce a tuple of item components: " + H.render(tup)[:100], cl["sp"])
+                ok_chain = False
+                break
+            roles = [_role(e, env) for e in tup["es"]]
         elif nm == "filter_map":
             inner_ad, inner_root = _chain(_value_of(cl["body"]))
             out_roles = None
@@ -213,23 +222,26 @@ def _chain_rules(c, R, rid, gsm, spec):
                 elif m["name"] in ("and_then", "filter", "map") and m["args"] and H.peel(m["args"][0]).get("k") == "closure":
                     icl = H.peel(m["args"][0])
                     ienv = dict(env)
-                    ok_b = len(icl["params"]) == 1 and _bind_roles(icl["params"][0], "callee-set" if out_roles is None and not one["len"] else "callee", ienv)
                     v = _value_of(icl["body"])
-                    # `len() == 1` comparisons in this closure
-                    for x in H.walk(icl["body"]):
-                        if x.get("k") == "bin" and x["op"] in ("==", "!=", "<", "<=", ">", ">="):
-                            sides = [H.peel(x["l"], casts=True), H.peel(x["r"], casts=True)]
-                            lens = [s for s in sides if s.get("k") == "mcall" and s["name"] == "len"]
-                            lits = [H.const_value(s) for s in sides if s.get("k") == "lit"]
-                            if len(lens) == 1 and len(lits) == 1:
-                                one["len"].append((x["op"], lits[0], x["sp"]))
-                    if v.get("k") == "if" and "else" in v:
-                        cnd = H.peel(v["cond"], refs=False)
-                        eqb, neb = (v["else"], v["then"]) if cnd.get("op") == "!=" else (v["then"], v["else"])
-                        c_ne = H.ctor_of(H.peel(_value_of(neb)))
-                        c_eq = H.ctor_of(H.peel(_value_of(eqb)))
-                        rr = H.recv_root(_value_of(eqb))
-                        one["else_none"] = (bool(c_ne) and c_ne[1] == "None", not (c_eq and c_eq[1] == "None") and bool(rr) and ienv.get(rr[0]) == "callee-set", v["sp"])
+                    # a closure that looks at `len()` of the callee set: evaluate it for set sizes 0..3
+                    # (`==`, `!=` with swapped branches, `match len`, range tests ... give the same table)
+                    has_len = any(x.get("k") == "mcall" and x["name"] == "len" for x in H.walk(icl["body"]))
+                    ps = [H.pat_bindings(p0) for p0 in icl["params"]]
+                    if has_len and len(ps) == 1 and len(ps[0]) == 1:
+                        table = {}
+                        for size in (0, 1, 2, 3):
+                            ev = T.Evaluator(calls={"len": (lambda args, size=size: ("i", size))})
+                            try:
+                                r = ev.ev(icl["body"], {ps[0][0][0]: T.sym("CALLEE_SET")})
+                            except T.Return as ret:
+                                r = ret.v
+                            if r in (T.V("None"), ("b", False)):
+                                table[size] = "dropped"
+                            elif r == ("b", True) or (T.is_sym(r) and "CALLEE_SET" in r[1]) or (r[0] == "v" and r[1] == "Some" and "CALLEE_SET" in T.show(r)):
+                                table[size] = "kept"
+                            else:
+                                table[size] = "?" + T.show(r)[:60]
+                        one["len"].append((table, m["sp"]))
                     if v.get("k") == "tuple":
                         # the closure parameter here is the single callee
                         ienv2 = dict(env)
@@ -280,12 +292,13 @@ def _chain_rules(c, R, rid, gsm, spec):
     R.inst(rid, "chain:one-callee:lookup-by-synthetic-method", bool(lk) and lk[0] and lk[1] == "synthetic", sp=lk[2] if lk else loop["sp"],
            expect="reference.method_references.get(<the synthetic method>)", got=None if not lk else {"map": lk[0], "key": lk[1]})
     n = spec["exactly_n_callees"]
-    R.inst(rid, "chain:one-callee:len==1", len(one["len"]) == 1 and one["len"][0][:2] == ("==", n), sp=one["len"][0][2] if one["len"] else loop["sp"],
-           expect="len() == %d" % n, got=[(o, v) for o, v, _ in one["len"]],
-           detail="synthetics calling zero or several distinct methods are not bridges")
-    en = one["else_none"]
-    R.inst(rid, "chain:one-callee:otherwise-none", bool(en) and en[0] and en[1], sp=en[2] if en else loop["sp"],
-           expect="if len()==1 { Some(the element) } else { None }", got=en[:2] if en else None)
+    tabs = one["len"]
+    want_tab = {k: ("kept" if k == n else "dropped") for k in (0, 1, 2, 3)}
+    R.inst(rid, "chain:one-callee:len==1", len(tabs) == 1 and all((tabs[0][0][k] == "kept") == (k == n) for k in (0, 1, 2, 3)),
+           sp=tabs[0][1] if tabs else loop["sp"], expect="callee kept iff the call set has exactly %d element: %s" % (n, want_tab),
+           got=[t for t, _ in tabs], detail="synthetics calling zero or several distinct methods are not bridges")
+    R.inst(rid, "chain:one-callee:otherwise-none", len(tabs) == 1 and all(tabs[0][0][k] == "dropped" for k in (0, 2, 3)),
+           sp=tabs[0][1] if tabs else loop["sp"], expect="None (no pair) for 0, 2, 3.. callees", got=[t for t, _ in tabs])
     adt = c.adts.get(MOD + "::ReferenceIndex")
     ty = None
     if adt:
@@ -317,6 +330,20 @@ def _chain_rules(c, R, rid, gsm, spec):
                 R.inst(rid, "result:specialized_to_bridge:key=callee", k == "callee", sp=x["sp"], got=(k, v))
 
 
+def _then_some(cl):
+    """(condition, produced value) when the closure's value is `<bool>.then_some(v)` / `<bool>.then(|| v)`, the bool possibly a local"""
+    v = H.peel(_value_of(cl["body"]))
+    if v.get("k") == "mcall" and v["name"] in ("then_some", "then") and len(v["args"]) == 1 and (v["recv"].get("ty") == "bool"):
+        cond = _resolve_local(v["recv"], cl["body"])
+        out = H.peel(v["args"][0])
+        if v["name"] == "then":
+            if out.get("k") != "closure":
+                return None
+            out = H.peel(_value_of(out["body"]))
+        return cond, out
+    return None
+
+
 def _spec_formula(f):
     if isinstance(f, str):
         return ("atom", f)
@@ -342,10 +369,13 @@ def _potential_rules(c, duke, R, rid, ipb, compat, spec):
     bad = spec["not_inheritable_flags"]
     R.inst(rid, "potential:flags:known", all(b in flags for b in bad), got=flags, expect=bad)
     okf = T.V("Ok", ("b", False))
+    # private helpers of the module may be called by the predicate (e.g. an extracted `can_be_inherited(access)`): inline them
+    inline = {b["key"]: b for b in c.bodies if b["key"].startswith(MOD + "::") and isinstance(b.get("body"), dict) and b.get("params") is not None
+              and b["key"] not in (ipb["key"], compat["key"])}
 
     def early(assign):
         st = ("st", "MethodAccess", {f: ("b", bool(assign.get(f, False))) for f in flags})
-        v = T.Evaluator().run_fn(ipb, [T.sym("visitor"), T.sym("synthetic"), st, T.sym("specialized")])
+        v = T.Evaluator(inline=inline, max_inline=3).run_fn(ipb, [T.sym("visitor"), T.sym("synthetic"), st, T.sym("specialized")])
         return v
     for vals in itertools.product([False, True], repeat=len(bad)):
         a = dict(zip(bad, vals))
@@ -371,17 +401,59 @@ def _potential_rules(c, duke, R, rid, ipb, compat, spec):
     if not R.anchor(rid, "is_potential_bridge: parsed descriptors of both methods", sorted(side_of.values()) == ["bridge", "specialized"], sp=ipb["sp"]):
         return
 
+    def resolve(e):
+        """follow plain locals (`let n = <expr>`) that are not the parsed descriptors themselves"""
+        for _ in range(4):
+            loc = H.local_of(e) if H.peel(e).get("k") == "path" else None
+            if not loc or loc[0] in side_of or loc[0] in pids:
+                return e
+            init = H.let_init_of(body, loc[0])
+            if init is None:
+                return e
+            e = init
+        return e
+
+    def rplace(e):
+        """(root local id, field path) of a place, through introduced locals (`let ps = &desc.parameter_descriptors`)"""
+        path = []
+        for _ in range(4):
+            root, p = H.place_root(e)
+            path = [x for x in p if not x.startswith(".")] + path
+            if not root:
+                return None, path
+            if root[0] in side_of or root[0] in pids:
+                return root[0], path
+            init = H.let_init_of(body, root[0])
+            if init is None:
+                return root[0], path
+            e = init
+        return None, path
+
     def plist(e):
         """(side, indexed-by local id or None) for `<desc>.parameter_descriptors` / `...[i]`"""
-        root, path = H.place_root(e)
-        if root and root[0] in side_of and path[:1] == ["parameter_descriptors"]:
+        root, path = rplace(e)
+        if root in side_of and path[:1] == ["parameter_descriptors"]:
             idx = None
-            e0 = H.peel(e)
+            e0 = H.peel(resolve(e))
             if e0.get("k") == "index":
                 il = H.local_of(e0["i"])
                 idx = il[0] if il else "?"
-            return side_of[root[0]], idx, path
+            return side_of[root], idx, path
         return None
+
+    def resolve_bool(cond):
+        """(node, negated) of a condition, through `!` and local bools"""
+        inner, neg = H.negate_peel(cond)
+        for _ in range(4):
+            loc = H.local_of(inner) if H.peel(inner).get("k") == "path" else None
+            if not loc:
+                break
+            init = H.let_init_of(body, loc[0])
+            if init is None:
+                break
+            inner, n2 = H.negate_peel(init)
+            neg = neg != n2
+        return H.peel(inner, refs=False), neg
 
     def returns_ok_false(n):
         rets = [x for x in H.walk(n) if x.get("k") == "ret" and "e" in x]
@@ -395,7 +467,7 @@ def _potential_rules(c, duke, R, rid, ipb, compat, spec):
             if cnd.get("k") == "bin" and cnd["op"] in ("!=", "=="):
                 ls = []
                 for s in (cnd["l"], cnd["r"]):
-                    s0 = H.peel(s)
+                    s0 = H.peel(resolve(s))
                     if s0.get("k") == "mcall" and s0["name"] == "len" and plist(s0["recv"]) and plist(s0["recv"])[1] is None:
                         ls.append(plist(s0["recv"])[0])
                 if sorted(ls) == ["bridge", "specialized"]:
@@ -403,50 +475,124 @@ def _potential_rules(c, duke, R, rid, ipb, compat, spec):
                     ar.append((n, br is not None and returns_ok_false(br)))
     R.inst(rid, "potential:arity-mismatch->false", len(ar) == 1 and ar[0][1], sp=ar[0][0]["sp"] if ar else ipb["sp"],
            expect="if bridge.params.len() != specialized.params.len() { return Ok(false) }", got="%d arity comparisons" % len(ar))
-    # position-wise loop
-    fors = [n for n in H.walk(body) if n.get("k") == "for"]
-    calls = [x for n in fors for x in H.walk(n["body"]) if x.get("k") == "call" and x.get("callee", {}).get("key") == compat["key"]]
-    if R.anchor(rid, "is_potential_bridge: loop over parameter positions calling are_types_bridge_compatible", len(fors) == 1 and len(calls) == 1, sp=ipb["sp"]):
-        lp, call = fors[0], calls[0]
-        it = H.peel(lp["iter"])
-        ok_range = False
-        got = H.render(it)[:100]
-        if it.get("k") == "struct" and (it.get("adt") or "") == "core::ops::range::Range":
-            fs = {f["name"]: f["e"] for f in it["fields"]}
-            e = H.peel(fs.get("end", {}))
-            ok_range = H.const_value(fs.get("start", {})) == 0 and e.get("k") == "mcall" and e["name"] == "len" and bool(plist(e["recv"])) and plist(e["recv"])[1] is None
-        R.inst(rid, "potential:params:range-covers-all-positions", ok_range, sp=it.get("sp"), expect="0..<either list>.len()", got=got)
-        ivar = [i for i, _ in H.pat_bindings(lp["pat"])]
-        a1, a2 = plist(call["args"][1]) if len(call["args"]) == 3 else None, plist(call["args"][2]) if len(call["args"]) == 3 else None
-        okc = bool(a1 and a2) and a1[0] == "bridge" and a2[0] == "specialized" and len(ivar) == 1 and a1[1] == ivar[0] and a2[1] == ivar[0]
+    # position-wise compatibility: an index loop, a loop over `zip`, or `zip(..).all(..)` / `.any(!..)`
+    def zip_info(local_id):
+        """(side, zip-consumer node, adapters ok?) for a local bound by the item pattern of `<list>.iter().zip(<list>)`"""
+        for n in H.walk(body):
+            pats, it, consumer = None, None, None
+            if n.get("k") == "for":
+                pats, it, consumer = [n["pat"]], n["iter"], n
+            elif n.get("k") == "mcall" and n["name"] in ("all", "any") and n["args"] and H.peel(n["args"][0]).get("k") == "closure":
+                pats, it, consumer = H.peel(n["args"][0])["params"], n["recv"], n
+            if not pats or len(pats) != 1:
+                continue
+            p = pats[0]
+            while p.get("k") in ("pref", "pderef"):
+                p = p["pat"]
+            if p.get("k") != "ptuple" or len(p["pats"]) != 2:
+                continue
+            pos = None
+            for i, sp_ in enumerate(p["pats"]):
+                if any(j == local_id for j, _ in H.pat_bindings(sp_)):
+                    pos = i
+            if pos is None:
+                continue
+            ad, root = _chain(resolve(it))
+            zips = [x for x in ad if x["name"] == "zip"]
+            if len(zips) != 1 or len(zips[0]["args"]) != 1:
+                return None
+            first = plist(zips[0]["recv"])
+            second = plist(zips[0]["args"][0])
+            clean = all(x["name"] in ("iter", "into_iter", "zip") for x in ad) and bool(first) and bool(second) and first[1] is None and second[1] is None
+            src = (first, second)[pos]
+            return (src[0] if src else None), consumer, clean
+        return None
+
+    def arg_role(e):
+        pl = plist(e)
+        if pl and pl[1] is not None:
+            return {"side": pl[0], "how": ("index", pl[1])}
+        loc = H.local_of(e)
+        if loc:
+            z = zip_info(loc[0])
+            if z:
+                return {"side": z[0], "how": ("zip", id(z[1])), "consumer": z[1], "clean": z[2]}
+        return None
+    pcalls = []
+    for x in H.walk(body):
+        if x.get("k") == "call" and x.get("callee", {}).get("key") == compat["key"] and len(x["args"]) == 3:
+            r1, r2 = arg_role(x["args"][1]), arg_role(x["args"][2])
+            if r1 or r2:
+                pcalls.append((x, r1, r2))
+    if R.anchor(rid, "is_potential_bridge: position-wise are_types_bridge_compatible over the parameter lists", len(pcalls) == 1, sp=ipb["sp"]):
+        call, r1, r2 = pcalls[0]
+        same_pos = bool(r1 and r2) and r1["how"] == r2["how"]
+        okc = same_pos and r1["side"] == "bridge" and r2["side"] == "specialized"
         R.inst(rid, "potential:params:compat(bridge[i],specialized[i])", okc, sp=call["sp"],
-               expect="are_types_bridge_compatible(visitor, &bridge.params[i], &specialized.params[i])",
-               got=[a1[:2] if a1 else None, a2[:2] if a2 else None],
+               expect="are_types_bridge_compatible(visitor, <bridge parameter i>, <specialized parameter i>)",
+               got=[(r["side"], r["how"][0]) if r else None for r in (r1, r2)],
                detail="compatibility is directional (the bridge's type is the wider one) and position-wise")
-        conds = H.path_conditions(lp["body"], call)
-        # the call is the (negated) condition of an `if` whose then-branch returns Ok(false)
+        ok_range = False
         okr = False
-        for n in H.walk(lp["body"]):
-            if n.get("k") == "if":
-                inner, neg = H.negate_peel(n["cond"])
-                if inner is call:
-                    br = n["then"] if neg else n.get("else")
-                    okr = br is not None and returns_ok_false(br)
-        R.inst(rid, "potential:params:incompatible->false", okr, sp=call["sp"], expect="if !compat(..) { return Ok(false) }")
+        got = None
+        if same_pos and r1["how"][0] == "index":
+            fors = [n for n in H.walk(body) if n.get("k") == "for" and any(x is call for x in H.walk(n["body"]))
+                    and [i for i, _ in H.pat_bindings(n["pat"])] == [r1["how"][1]]]
+            if len(fors) == 1:
+                lp = fors[0]
+                it = H.peel(resolve(lp["iter"]))
+                got = H.render(it)[:100]
+                if it.get("k") == "struct" and (it.get("adt") or "") == "core::ops::range::Range":
+                    fs = {f["name"]: f["e"] for f in it["fields"]}
+                    e = H.peel(resolve(fs.get("end", {})))
+                    ok_range = H.const_value(fs.get("start", {})) == 0 and e.get("k") == "mcall" and e["name"] == "len" and bool(plist(e["recv"])) and plist(e["recv"])[1] is None
+                scope = lp["body"]
+            else:
+                scope = None
+        elif same_pos:
+            ok_range = bool(r1.get("clean"))
+            got = "zip of both parameter lists" + ("" if ok_range else " through further adapters / partial lists")
+            cons = r1["consumer"]
+            scope = cons["body"] if cons.get("k") == "for" else None
+        else:
+            scope = None
+        R.inst(rid, "potential:params:range-covers-all-positions", ok_range, sp=call["sp"], expect="every position 0..len of the (equally long) lists", got=got)
+        if scope is not None:
+            # inside a loop: `if !compat(..) { return Ok(false) }`
+            for n in H.walk(scope):
+                if n.get("k") == "if":
+                    inner, neg = resolve_bool(n["cond"])
+                    if inner is call:
+                        br = n["then"] if neg else n.get("else")
+                        okr = br is not None and returns_ok_false(br)
+        elif same_pos and r1["how"][0] == "zip":
+            cons = r1["consumer"]          # `.all(|(b, s)| compat(..))`  or  `.any(|(b, s)| !compat(..))`
+            cv, cneg = H.negate_peel(_value_of(H.peel(cons["args"][0])["body"]))
+            if H.peel(cv, refs=False) is call and ((cons["name"] == "all" and not cneg) or (cons["name"] == "any" and cneg)):
+                all_compatible_when_true = cons["name"] == "all"
+                for n in H.walk(body):
+                    if n.get("k") == "if":
+                        inner, neg = resolve_bool(n["cond"])
+                        if inner is cons:
+                            # branch taken when NOT all compatible
+                            cond_true_means_compatible = all_compatible_when_true != neg
+                            br = n.get("else") if cond_true_means_compatible else n["then"]
+                            okr = br is not None and returns_ok_false(br)
+        R.inst(rid, "potential:params:incompatible->false", okr, sp=call["sp"], expect="an incompatible position makes the result Ok(false)")
     # return table
     tabs = []
     for n in H.walk(body):
         if n.get("k") == "match" and H.peel(n["scrut"]).get("k") == "tuple" and len(H.peel(n["scrut"])["es"]) == 2:
             pos = []
             for e in H.peel(n["scrut"])["es"]:
-                root, path = H.place_root(e)
-                pos.append(side_of.get(root[0]) if root and path[:1] == ["return_descriptor"] else None)
+                root, path = rplace(e)
+                pos.append(side_of.get(root) if root is not None and path[:1] == ["return_descriptor"] else None)
             if sorted(x for x in pos if x) == ["bridge", "specialized"]:
                 tabs.append((n, pos))
     if R.anchor(rid, "is_potential_bridge: `match (bridge.return_descriptor, specialized.return_descriptor)`", len(tabs) == 1, sp=ipb["sp"]):
         m, pos = tabs[0]
         v = H.peel(_value_of(body))
-        ok_res = v.get("k") == "call" and (H.ctor_of(v) or (None, None))[1] == "Ok" and H.peel(v["args"][0]) is m
+        ok_res = v.get("k") == "call" and (H.ctor_of(v) or (None, None))[1] == "Ok" and H.peel(resolve(v["args"][0])) is m
         R.inst(rid, "potential:return:result-is-the-table", ok_res, sp=m["sp"], detail="after the parameter checks the answer is the return-type table")
         hook = {"are_types_bridge_compatible": lambda args: T.V("compat", *args[1:])}
         for (pb, ps) in ((True, True), (False, False), (True, False), (False, True)):
@@ -467,7 +613,7 @@ def _compat_rules(c, duke, R, rid, fn):
     tadt = duke.adts.get(TYPE)
     ms = [n for n in H.walk(body, into_closures=False) if n.get("k") == "match" and H.peel(n["scrut"]).get("k") == "tuple"]
     if not (R.anchor(rid, "enum duke::tree::descriptor::Type", tadt) and R.anchor(rid, "are_types_bridge_compatible: `match (bridge_desc, specialized_desc)`",
-                                                                                len(ms) == 1 and len(pids) == 3 and H.peel(_value_of(body)) is ms[0], sp=fn["sp"])):
+                                                                                len(ms) == 1 and len(pids) == 3, sp=fn["sp"])):
         return
     m = ms[0]
     pos = []
@@ -544,7 +690,47 @@ def _compat_rules(c, duke, R, rid, fn):
     def value(vn, nf, tag):
         return T.V(vn, *[T.sym("%s%d" % (tag, i)) for i in range(nf)])
 
+    base_roles = {pids[1]: ("whole", "bridge"), pids[2]: ("whole", "specialized")}
+
     def cell_formula(vb, vs):
+        """formula of the whole function for this pair of kinds: early `if c { return X }` statements, `if/else`, and the
+        kind table (the tuple match) wherever it stands."""
+        def expr(n):
+            n = H.peel(n, refs=False)
+            k = n.get("k")
+            if n is m:
+                return table(vb, vs)
+            if k == "block":
+                return seq(n["stmts"], n.get("tail"))
+            if k == "if" and "else" in n and H.peel(n["cond"], refs=False).get("k") != "letexpr":
+                a, b = expr(n["then"]), expr(n["else"])
+                if a is None or b is None:
+                    return None
+                return ("ite", B.formula(n["cond"], atom_factory(base_roles)), a, b)
+            if k == "ret":
+                return expr(n["e"]) if "e" in n else None
+            if k == "match":
+                return ("atom", "?" + H.render(n)[:80])
+            return B.formula(n, atom_factory(base_roles))
+
+        def seq(stmts, tail):
+            if not stmts:
+                return expr(tail) if tail is not None else None
+            s0 = H.peel(stmts[0], refs=False)
+            k = s0.get("k")
+            if k == "let":
+                return seq(stmts[1:], tail)
+            if k == "ret" or (any(s0 is m or x is m for x in H.walk(s0)) and H.diverges(s0)):
+                return expr(s0)
+            if k == "if" and "else" not in s0 and H.diverges(s0["then"]) and H.peel(s0["cond"], refs=False).get("k") != "letexpr":
+                a, b = expr(s0["then"]), seq(stmts[1:], tail)
+                if a is None or b is None:
+                    return None
+                return ("ite", B.formula(s0["cond"], atom_factory(base_roles)), a, b)
+            return ("atom", "?" + H.render(s0)[:80])
+        return expr(body)
+
+    def table(vb, vs):
         val = [None, None]
         val[pos.index("bridge")] = value(vb[0], vb[1], "b")
         val[pos.index("specialized")] = value(vs[0], vs[1], "s")
@@ -555,7 +741,7 @@ def _compat_rules(c, duke, R, rid, fn):
                 continue
             if r is None:
                 return None
-            at = atom_factory(roles_of(a["pat"]))
+            at = atom_factory({**base_roles, **roles_of(a["pat"])})
             g = B.formula(a["guard"], at) if "guard" in a else ("const", True)
             parts.append((g, B.formula(_value_of(a["body"]), at)))
             if "guard" not in a:
@@ -629,13 +815,32 @@ def _index_rules(c, duke, R, rid, spec):
         return
     fm = fm[0]
     body = fm["body"]
-    ms = [n for n in H.walk(body) if n.get("k") == "match" and (n["scrut"].get("ty") or "") == INSN]
-    if R.anchor(rid, "finish_method: `match instruction.instruction`", len(ms) == 1, sp=fm["sp"]):
-        m = ms[0]
+    # the classification of an instruction: a `match` on it, or an `if let <invoke patterns> = insn { Some(..) } else { None }`
+    ms = []
+    for n in H.walk(body):
+        if n.get("k") == "match" and (n["scrut"].get("ty") or "") == INSN:
+            ms.append((n, n["scrut"]))
+        elif n.get("k") == "if" and "else" in n:
+            cnd = H.peel(n["cond"], refs=False)
+            if cnd.get("k") == "letexpr" and (cnd["init"].get("ty") or "") == INSN:
+                ms.append((n, cnd["init"]))
+    if R.anchor(rid, "finish_method: classification of `instruction.instruction`", len(ms) == 1, sp=fm["sp"]):
+        m, scrut = ms[0]
+        root, path = H.place_root(scrut)
+        path = [x for x in path if not x.startswith(".")]
         want = set(spec["invoke_with_methodref"])
         for v in iadt["variants"]:
             val = T.V(v["name"], *[T.sym("op%d" % i) for i in range(len(v["fields"]))])
-            got = T.Evaluator(scrut_override={id(m): val}).ev(m, {})
+            env = {}
+            if root:
+                x = val
+                for fld in reversed(path):
+                    x = ("st", "?", {fld: x})
+                env[root[0]] = x
+            try:
+                got = T.Evaluator().ev(m, env)
+            except T.Return as r:
+                got = r.v
             if v["name"] in want:
                 ok = got == T.V("Some", T.sym("op0"))
                 exp = "Some(<the method reference>)"
@@ -785,7 +990,7 @@ def r15_2(c, R, spec):
     ok0 = ok1 = False
     g0 = g1 = None
     if len(arr) == 1 and len(arr[0]["es"]) == 2:
-        r0, p0 = H.place_root(arr[0]["es"][0])
+        r0, p0 = H.place_root(_resolve_local(arr[0]["es"][0], loop["body"], stop=set(env)))
         g0 = (env.get(r0[0]) if r0 else None, p0)
         ok0 = g0 == ("specialized", ["name"])
         e1 = arr[0]["es"][1]
@@ -808,7 +1013,7 @@ def r15_2(c, R, spec):
     R.inst(rid, "info:names[0]=specialized.name", ok0, sp=info["sp"], expect="specialized.name (the key the entry is stored under)", got=g0)
     R.inst(rid, "info:names[1]=named(bridge).name", ok1, sp=info["sp"], expect="remapper_named.map_method_ref_obj(&bridge)?.name", got=g1,
            detail="the bridge target gets the name the mappings (through inheritance) give to the bridge")
-    rd, pd = H.place_root(fs["desc"]) if "desc" in fs else (None, None)
+    rd, pd = H.place_root(_resolve_local(fs["desc"], loop["body"], stop=set(env))) if "desc" in fs else (None, None)
     R.inst(rid, "info:desc=specialized.desc", bool(rd) and env.get(rd[0]) == "specialized" and pd == ["desc"], sp=info["sp"], got=(env.get(rd[0]) if rd else None, pd))
 
     # ---- who may write: every &mut use / assignment rooted in the clone
@@ -860,13 +1065,13 @@ def r15_2(c, R, spec):
     ent_match = None
     for kind, n, rid_local, path in writes:
         if kind == "call:get_mut" and rid_local == M and path == ["classes"]:
-            r, p = H.place_root(n["args"][0]) if n["args"] else (None, None)
+            r, p = H.place_root(_resolve_local(n["args"][0], loop["body"], stop=set(env))) if n["args"] else (None, None)
             ok = bool(r) and env.get(r[0]) == "bridge" and p == ["class"]
             seen["navigate-class"] += 1
             R.inst(rid, "write:class=bridge.class", ok, sp=n["sp"], expect="mappings.classes.get_mut(&bridge.class)", got=(env.get(r[0]) if r else None, p),
                    detail="the rename happens within the bridge's class")
         elif kind == "call:entry" and path == ["methods"] and derived.get(rid_local) == "via:mappings":
-            a = H.peel(n["args"][0], tries=True) if n["args"] else {}
+            a = H.peel(_resolve_local(n["args"][0], loop["body"], stop={info_local}), tries=True) if n["args"] else {}
             ok = a.get("k") == "mcall" and a["name"] == "get_key" and H.local_of(a["recv"]) and H.local_of(a["recv"])[0] == info_local
             seen["navigate-method"] += 1
             R.inst(rid, "write:method-entry=key-of-new-info", bool(ok), sp=n["sp"], expect="class.methods.entry(info.get_key()?)", got=H.render(a)[:80])
@@ -885,7 +1090,7 @@ def r15_2(c, R, spec):
                    got={"arm": arm, "target": fpath, "value": H.render(n["r"])[:40]},
                    detail="an existing method entry keeps its javadoc, parameters and other children; only its names/descriptor record is replaced")
         elif kind == "call:insert" and _arm_variant(ent_match, n) == "Vacant" if ent_match else False:
-            a = H.peel(n["args"][0]) if n["args"] else {}
+            a = H.peel(_resolve_local(n["args"][0], loop["body"], stop={info_local})) if n["args"] else {}
             ok = a.get("k") == "call" and H.callee_name(a) == "new" and "MethodNowodeMapping" in (a.get("callee", {}).get("full") or a.get("callee", {}).get("path") or "") \
                 and len(a["args"]) == 1 and H.local_of(a["args"][0]) and H.local_of(a["args"][0])[0] == info_local
             seen["vacant"] += 1
@@ -900,6 +1105,7 @@ def r15_2(c, R, spec):
         conds = H.path_conditions(loop["body"], ent_match)
         kinds = [(k, H.render(cn.get("init", cn))[:60] if isinstance(cn, dict) else None) for k, cn, _ in conds]
         ok = len(conds) == 1 and ((conds[0][0] == "iflet" and conds[0][2] is True) or
+                                  (conds[0][0] == "letelse" and (H.pat_variant(conds[0][1]["pat"]) or (None, None))[1] == "Some") or
                                   (conds[0][0] == "arm" and (H.pat_variant(conds[0][1]["arms"][conds[0][2]]["pat"]) or (None, None))[1] == "Some"))
         R.inst(rid, "write:unconditional-for-mapped-classes", ok, sp=ent_match["sp"], got=kinds,
                detail="every detected pair whose class has a mapping entry is applied")
@@ -928,6 +1134,19 @@ def _place(n):
             return n["res"]["id"], list(reversed(path))
         else:
             return None, list(reversed(path))
+
+
+def _resolve_local(e, scope, stop=(), limit=4):
+    """follow a plain local to its `let` initialiser (an introduced local is the same value), except for the ids in `stop`"""
+    for _ in range(limit):
+        loc = H.local_of(e) if isinstance(e, dict) and H.peel(e).get("k") == "path" else None
+        if not loc or loc[0] in stop:
+            return e
+        init = H.let_init_of(scope, loc[0])
+        if init is None:
+            return e
+        e = init
+    return e
 
 
 def _arm_variant(m, node):
